@@ -112,6 +112,58 @@ def rule_fragment_len(ctx, P):
             r.ok('get_fragment_size(buf) == sizes stored in the header + 80 (0, 1, 4, 80, 4096, 2^20)', func=g.name, loc=g.mod.src)
     r.require_min(1)
 
+def _same_as_aligned_of_one(P, fmin, fpub):
+    """both size queries, followed from their return values down to the instance's k and the element-size call, evaluated on a
+    grid: min(k, w) must equal aligned(k, w, data_len = 1); the constant (error) alternatives must coincide"""
+    from .. import symex
+    def forms(fn):
+        rets = [i for i in fn.insts() if i.op == 'ret' and i.ops]
+        if len(rets) != 1:
+            return None
+        alts = symex.alternatives(symex.tree(fn, rets[0].ops[0]))
+        consts = sorted(a[1] for a in alts if a[0] == 'c')
+        comp = [a for a in alts if a[0] != 'c']
+        return consts, comp
+    def env_for(fn, tree_, K, E, extra):
+        env = dict(extra)
+        for lf in symex.leaves(tree_):
+            if lf[0] != 'v':
+                continue
+            d = fn.defs.get(lf[1])
+            if d is None:
+                return None
+            if d.op == 'load':
+                fl = fields_in_path(access_path(P, fn, d.ops[0])[1])
+                if fl and fl[-1] == ('ec_args', 'k'):
+                    env[lf] = K
+                    continue
+                return None
+            if d.op == 'call' and (d.callee or '').startswith('%'):
+                cd = fn.defs.get(d.callee)
+                fl = fields_in_path(access_path(P, fn, cd.ops[0])[1]) if cd is not None and cd.op == 'load' else []
+                ad = fn.defs.get(strip_ptr_casts(fn, d.ops[0])) if d.ops else None
+                afl = fields_in_path(access_path(P, fn, ad.ops[0])[1]) if ad is not None and ad.op == 'load' else []
+                if fl and fl[-1][1] == 'element_size' and afl and afl[-1][1] == 'backend_desc':
+                    env[lf] = E           # element_size(instance->desc.backend_desc)
+                    continue
+            return None
+        return env
+    a, b = forms(fmin), forms(fpub)
+    if a is None or b is None or a[0] != b[0] or len(a[1]) != 1 or len(b[1]) != 1 or any(c >= 0 for c in a[0]):
+        return False
+    try:
+        for K in (1, 2, 3, 7, 10, 32):
+            for E in (8, 16, 32, 64, 1024):
+                e1 = env_for(fmin, a[1][0], K, E, {})
+                e2 = env_for(fpub, b[1][0], K, E, {('p', 1): 1})
+                if e1 is None or e2 is None:
+                    return False
+                if symex.evaluate(a[1][0], e1) != symex.evaluate(b[1][0], e2):
+                    return False
+    except (KeyError, ValueError, ZeroDivisionError, IndexError):
+        return False
+    return True
+
 def run(ctx):
     P = ctx.program()
     cg = callgraph.get(P)
@@ -239,8 +291,28 @@ def run(ctx):
     f = P.fn('liberasurecode_get_minimum_encode_size')
     C = Canon(P, f)
     rv = {C.val(i.ops[0]) for i in f.insts() if i.op == 'ret'}
+    def _ret_forms(fn):
+        Cf_ = Canon(P, fn)
+        out_ = set()
+        for i_ in fn.insts():
+            if i_.op == 'ret' and i_.ops:
+                d_ = fn.defs.get(i_.ops[0])
+                vs_ = [v_ for v_, _ in d_.incoming] if d_ is not None and d_.op == 'phi' else [i_.ops[0]]
+                out_ |= {Cf_.val(v_) for v_ in vs_}
+        return out_
+    pub = P.fn('liberasurecode_get_aligned_data_size')
+    mine, theirs = _ret_forms(f), _ret_forms(pub)
+    inner = lambda n_: f'@get_aligned_data_size(@liberasurecode_backend_instance_get_by_desc(arg0),{n_})'
+    same_by_parts = (inner('1') in mine and inner('arg1') in theirs and
+                     {x for x in mine if x != inner('1')} == {x for x in theirs if x != inner('arg1')} and
+                     all(re.match(r'^-\d+$', x) for x in mine if x != inner('1')))
     if rv == {'@liberasurecode_get_aligned_data_size(arg0,1)'}:
         r.ok('returns liberasurecode_get_aligned_data_size(desc, 1) unchanged', func=f.name, loc=f.mod.src)
+    elif _same_as_aligned_of_one(P, f, pub):
+        r.ok('as value functions of (k, element size) the two queries agree: minimum == aligned(desc, 1), same refusal of an unknown descriptor '
+             '(evaluated on a grid of k and word sizes)', func=f.name, loc=f.mod.src)
+    elif same_by_parts:
+        r.ok('both queries look the descriptor up, refuse an unknown one with the same value and return get_aligned_data_size(instance, 1) / (instance, data_len)', func=f.name, loc=f.mod.src)
     else:
         r.fail('minimum encode size', func=f.name, sig=f'returns {sorted(rv)}', loc=f.mod.src, msg=f'minimum encode size is {sorted(rv)}, expected aligned(desc, 1)')
     r.require_min(1)
